@@ -611,6 +611,55 @@ def parent_rule_selection():
     return defn("parent_rule_selection", "psel", sel)
 
 
+def crossfile_checks_silent():
+    """Census of the rule classes under src/linters that override finalize (the cross-file rules), with the fact the
+    rule-level theorem needs about each: check() reports NOTHING on any path (it only stores), so what it reports cannot
+    depend on what the instance saw before.  Accepted shapes: the class defines check() and every `return` in it is
+    `return []`; or it inherits MultiLanguageLintRule.check (returns `[]` or the language dispatch, whose returns are `[]`
+    or self._check_<lang>(context, config)) and every _check_<lang> it resolves to returns `[]` only."""
+    import pathlib
+    from translator.lib import REPO
+
+    def silent(fn: ast.FunctionDef) -> bool:
+        rets = [n for n in ast.walk(fn) if isinstance(n, ast.Return)]
+        return bool(rets) and all(r.value is not None and ast.unparse(r.value) == "[]" for r in rets) \
+            and not any(isinstance(n, (ast.Yield, ast.YieldFrom)) for n in ast.walk(fn))
+
+    def methods(cls: ast.ClassDef) -> dict:
+        return {n.name: n for n in cls.body if isinstance(n, ast.FunctionDef)}
+
+    base_mod = parse("src/core/base.py")
+    ml = methods(find_class(base_mod, "MultiLanguageLintRule"))
+    rets = sorted({ast.unparse(n.value) for n in ast.walk(ml["check"]) if isinstance(n, ast.Return) and n.value is not None})
+    if rets != ["[]", "self._dispatch_by_language(context, config)"]:
+        raise Unsupported(f"MultiLanguageLintRule.check returns {rets}")
+    disp = sorted({ast.unparse(n.value) for n in ast.walk(ml["_dispatch_by_language"]) if isinstance(n, ast.Return) and n.value is not None})
+    langs = []
+    for d in disp:
+        m = re.fullmatch(r"self\.(_check_\w+)\(context, config\)", d)
+        if m:
+            langs.append(m.group(1))
+        elif d != "[]":
+            raise Unsupported(f"_dispatch_by_language returns {d}")
+    rows = []
+    root = pathlib.Path(REPO) / "src" / "linters"
+    for path in sorted(root.rglob("*.py")):
+        rel = str(path.relative_to(REPO))
+        for cls in [n for n in parse(rel).body if isinstance(n, ast.ClassDef)]:
+            ms = methods(cls)
+            if "finalize" not in ms:
+                continue
+            bases = [ast.unparse(b) for b in cls.bases]
+            if "check" in ms and bases == ["BaseLintRule"]:
+                ok = silent(ms["check"])
+            elif "check" not in ms and "_dispatch_by_language" not in ms and bases == ["MultiLanguageLintRule"]:
+                ok = all(silent(ms[l]) if l in ms else (l in ml and silent(ml[l])) for l in langs)
+            else:
+                raise Unsupported(f"{cls.name} ({rel}) overrides finalize but its check() has an unknown shape (bases {bases})")
+            rows.append(f"({coq_string(cls.name)}, {'true' if ok else 'false'})")
+    return defn("crossfile_checks_silent", "list (string * bool)", coq_list(rows))
+
+
 ITEMS = [
     ("violation_fields", violation_fields),
     ("severity_members", severity_members),
@@ -637,4 +686,5 @@ ITEMS = [
     ("base_finalize", base_finalize),
     ("finalize_rules_template", finalize_rules_template),
     ("parent_rule_selection", parent_rule_selection),
+    ("crossfile_checks_silent", crossfile_checks_silent),
 ]
